@@ -30,7 +30,9 @@ from hypergraph.viz.renderer._format import format_type
 from hypergraph.viz.renderer.nodes import build_input_groups, has_end_routing
 from hypergraph.viz.renderer.scope import (
     find_container_entrypoints,
+    enter_expanded_producer,
     find_internal_producer_for_output,
+    internal_output_name,
 )
 
 # =============================================================================
@@ -430,7 +432,11 @@ def _render_separate_edges(
                         seen_edges.add(edge_key)
                         lines.append(_format_edge(actual_source, target, value_name))
                     continue
-                data_id = f"data_{actual_source}_{value_name}"
+                # the DATA node carries the name its owner knows the value by
+                data_value = internal_output_name(source, actual_source, value_name, flat_graph) if actual_source != source else value_name
+                if data_value not in actual_attrs.get("outputs", ()):
+                    data_value = value_name
+                data_id = f"data_{actual_source}_{data_value}"
                 edge_key = (_sanitize_id(data_id), _sanitize_id(target))
                 if edge_key not in seen_edges:
                     seen_edges.add(edge_key)
@@ -517,7 +523,7 @@ def _resolve_data_source(
     if source_attrs.get("node_type") == "GRAPH" and expansion_state.get(source, False) and value_name:
         internal = output_to_producer.get(value_name)
         if internal and internal != source and is_descendant_of(internal, source, flat_graph):
-            actual_source = internal
+            actual_source = enter_expanded_producer(source, internal, value_name, flat_graph, expansion_state)
         else:
             found = find_internal_producer_for_output(
                 source,
